@@ -65,7 +65,10 @@ pub struct Arrangement {
     /// 8: as 0, and every file ends with an annotation line (which belongs to whatever follows
     /// the include); 9: file a is empty, file b holds white space only, c a comment only;
     /// 10: as 0, and the working directory of the process holds its own copies of all the files
-    /// (the path as written is the last resort, after the search list)
+    /// (the path as written is the last resort, after the search list);
+    /// 11: as 0, but file b lives in a sub-directory `sub/` of every directory that holds it and
+    /// is included as `sub/b.inc` (a relative path with a directory component is joined whole
+    /// to each search directory); the plain name `b.inc` then resolves nowhere
     pub b_kind: u8,
 }
 
@@ -80,7 +83,7 @@ fn content(f: usize, dir: usize, b_kind: u8) -> String {
         1 => match b_kind {
             9 => "  \n\t\n".to_string(),
             8 => format!("int vb = {};\n@tail b 1\n@tail b 2\n", 20 + dir),
-            0 | 5 | 6 | 7 | 10 => format!("int vb = {};\n", 20 + dir),
+            0 | 5 | 6 | 7 | 10 | 11 => format!("int vb = {};\n", 20 + dir),
             1 => format!("int vb = {};\nint wb = va;\n", 20 + dir),
             3 => format!("int vb = ;\nint wb = {};\n", 20 + dir),
             4 => format!("int vb = 0b;\nint wb = {};\n", 20 + dir),
@@ -88,6 +91,7 @@ fn content(f: usize, dir: usize, b_kind: u8) -> String {
         },
         _ if b_kind == 9 => "// nothing here\n".to_string(),
         _ if b_kind == 8 => format!("include \"b.inc\";\nint vc = {};\n@tail c\n", 30 + dir),
+        _ if b_kind == 11 => format!("include \"sub/b.inc\";\nint vc = {};\n", 30 + dir),
         _ => format!("include \"b.inc\";\nint vc = {};\n", 30 + dir),
     }
 }
@@ -118,6 +122,9 @@ pub fn mains() -> Vec<(&'static str, &'static str)> {
         ("stdgates_mid", "include \"a.inc\";\ninclude \"stdgates.inc\";\ninclude \"b.inc\";\nint s = vb;\nqubit q;\nh q;\n"),
         ("annotated", "int pre = 1;\n@note one\n@second\ninclude \"a.inc\";\nint post = 2;\n"),
         ("annotated_last", "int pre = 1;\n@note one\ninclude \"b.inc\";\n"),
+        ("stdgates_single_quotes", "include 'stdgates.inc';\ninclude \"a.inc\";\nqubit q;\nh q;\nint s = va;\n"),
+        ("subdir", "include \"sub/b.inc\";\nint s = vb;\n"),
+        ("subdir_two", "include \"a.inc\";\ninclude \"sub/b.inc\";\ninclude \"b.inc\";\n"),
     ]
 }
 
@@ -136,6 +143,11 @@ pub fn search_lists(n: usize) -> Vec<Vec<usize>> {
     let mut out = Vec::new();
     rec(n, &mut Vec::new(), &mut out);
     out
+}
+
+/// Where file f lives inside a search directory.
+fn rel_path(f: usize, b_kind: u8) -> String {
+    if b_kind == 11 && f == 1 { format!("sub/{}", FILES[f]) } else { FILES[f].to_string() }
 }
 
 fn work_root() -> PathBuf {
@@ -159,8 +171,11 @@ impl Tree {
             for d in 0..arr.ndirs {
                 if mask & (1 << d) != 0 {
                     let dir = root.join(DIRS[d]);
-                    std::fs::write(dir.join(FILES[f]), format!("/* {} */\nint stale_{}_{} = nosuch_stale;\ngate stale_gate_{} w {{ }}\n", "earlier contents ".repeat(40), f, d, f))?;
-                    let main = format!("include \"{}\";\n", FILES[f]);
+                    if arr.b_kind == 11 {
+                        std::fs::create_dir_all(dir.join("sub"))?;
+                    }
+                    std::fs::write(dir.join(rel_path(f, arr.b_kind)), format!("/* {} */\nint stale_{}_{} = nosuch_stale;\ngate stale_gate_{} w {{ }}\n", "earlier contents ".repeat(40), f, d, f))?;
+                    let main = format!("include \"{}\";\n", rel_path(f, arr.b_kind));
                     let dirs = vec![dir];
                     let _ = catch(move || parse_source_string_with_path_search(main.as_str(), Some("earlier.qasm"), Some(dirs.as_slice())).any_syntax_errors());
                 }
@@ -169,7 +184,7 @@ impl Tree {
         for (f, mask) in arr.presence.iter().enumerate() {
             for d in 0..arr.ndirs {
                 if mask & (1 << d) != 0 {
-                    std::fs::write(root.join(DIRS[d]).join(FILES[f]), content(f, d, arr.b_kind))?;
+                    std::fs::write(root.join(DIRS[d]).join(rel_path(f, arr.b_kind)), content(f, d, arr.b_kind))?;
                 }
             }
         }
@@ -219,7 +234,12 @@ impl Drop for Tree {
 
 /// R-fs: which directory does `name` resolve to under the search list?
 fn resolve(arr: &Arrangement, name: &str, effective: Option<&[usize]>) -> Option<usize> {
-    let f = FILES.iter().position(|x| *x == name)?;
+    let f = if arr.b_kind == 11 {
+        // b lives under sub/ only
+        (0..FILES.len()).find(|f| rel_path(*f, 11) == name)?
+    } else {
+        FILES.iter().position(|x| *x == name)?
+    };
     let in_list = effective.and_then(|list| list.iter().copied().find(|d| arr.presence.get(f).map(|m| m & (1 << d) != 0).unwrap_or(false)));
     // not found through the list: the path as written, i.e. relative to the working directory
     in_list.or(if arr.b_kind == 10 && f < arr.presence.len() { Some(CWD) } else { None })
@@ -328,9 +348,9 @@ impl Configs {
                 presence.push((x % masks) as u8);
                 x /= masks;
             }
-            for b_kind in 0..11u8 {
-                // kinds 1 to 4 only matter when b is present somewhere
-                if (1..=4).contains(&b_kind) && presence.get(1).copied().unwrap_or(0) == 0 {
+            for b_kind in 0..12u8 {
+                // kinds 1 to 4 and 11 only matter when b is present somewhere
+                if ((1..=4).contains(&b_kind) || b_kind == 11) && presence.get(1).copied().unwrap_or(0) == 0 {
                     continue;
                 }
                 out.push(Arrangement { ndirs: self.ndirs, presence: presence.clone(), b_kind });
